@@ -175,9 +175,8 @@ def random_cases(draw):
     kind = draw(st.sampled_from(KINDS))
     case = {"sums": sums, "seq": draw(st.sampled_from(SEQS))}
     if style == 4:
-        case["seq"] = draw(st.sampled_from(["list", "tuple", "iarray"]))      # float64 cannot hold these sums
-        if kind == "wmaxmin":
-            kind = "diff"
+        case["seq"] = draw(st.sampled_from(["list", "tuple", "iarray", "iarray"]))      # float64 cannot hold these sums
+        # (the weighted objective is a quotient: compared, as everywhere, within a relative 10^-12)
     if kind in ("klargest", "ksmallest"):
         case["obj"] = f"{kind}:{draw(st.integers(1, n + 3))}"
     elif kind == "wmaxmin":
